@@ -42,6 +42,7 @@ type psim struct {
 	hashedComplete  bool // V1 values longer than 32 bytes are requested on the fault-free channel / claimed by hash
 	emptyComplete   bool // keys with an empty value are requested on the fault-free channel
 	emptyState      bool // read-proof requests may address a state without any key
+	comb            bool // the first state gets a "comb": one long key and a sibling key diverging at every nibble of it (a path of 66-96 nested hashed branches)
 	hashClaims      bool // false claims "value = Blake2b(real value)" for V1 values longer than 32 bytes
 }
 
@@ -76,6 +77,7 @@ func runProof(k *kernel.K) {
 	quiet()
 	s := &psim{k: k, g: &gen{k: k}, disk: simdisk.NewDisk()}
 	s.absentInRequest = knob(k, 1, 5, "absent-keys-in-request")
+	s.comb = k.Bool(1, 8, "knob-deep-comb")
 	s.hashedComplete = knob(k, 3, 4, "hashed-values-on-clean-channel")
 	s.emptyComplete = knob(k, 3, 4, "empty-values-on-clean-channel")
 	s.emptyState = knob(k, 1, 3, "requests-to-the-empty-state")
@@ -127,6 +129,35 @@ func (s *psim) build() {
 	ts.SetVersion(tlayout(ver))
 	tr := ts.Trie().(*inmemory.InMemoryTrie)
 	m := b.model.Clone()
+	if s.comb && b.id == 0 {
+		// storage keys are not limited to 32 bytes: a path that crosses more branch nodes than a 32-byte key has nibbles
+		long := make([]byte, k.Range(33, 48, "comb-key-len"))
+		for i := range long {
+			long[i] = byte(0x31 + 7*i)
+		}
+		put := func(key []byte, tag byte) {
+			val := make([]byte, 40)
+			for i := range val {
+				val[i] = tag ^ byte(i)
+			}
+			val[0], val[1] = byte(len(key)), tag
+			if err := tr.Put(key, val); err != nil {
+				s.viol("build", "put-failed", "Put(%s) failed: %v", hx(key), err)
+			}
+			m.Put(key, val)
+		}
+		put(long, 0xfe)
+		for nib := 0; nib < 2*len(long); nib++ {
+			sib := cp(long[:nib/2+1])
+			if nib%2 == 0 {
+				sib[nib/2] ^= 0x80
+			} else {
+				sib[nib/2] ^= 0x08
+			}
+			put(sib, byte(nib))
+		}
+		k.Probe("deep-comb-state")
+	}
 	nops := k.Range(1, 14, "ops")
 	for i := 0; i < nops; i++ {
 		ks := m.Keys()
